@@ -196,9 +196,35 @@ func ruleIndentRet(c *Ctx) []Obligation {
 		if nF > 1 {
 			con = fmt.Sprintf("%s #%d", con, nF)
 		}
+		// the underlying writer's own count, possibly clamped or joined with constants on the way
 		rawN := false
-		if ex, isE := n.(*ssa.Extract); isE && ex.Tuple == ssa.Value(m.under) && ex.Index == 0 {
-			rawN = true
+		{
+			seenP := map[ssa.Value]bool{}
+			onlyRaw, someRaw := true, false
+			var leaves func(x ssa.Value)
+			leaves = func(x ssa.Value) {
+				if seenP[x] {
+					return
+				}
+				seenP[x] = true
+				switch y := x.(type) {
+				case *ssa.Phi:
+					for _, e := range y.Edges {
+						leaves(e)
+					}
+				case *ssa.Const:
+				case *ssa.Extract:
+					if y.Tuple == ssa.Value(m.under) && y.Index == 0 {
+						someRaw = true
+					} else {
+						onlyRaw = false
+					}
+				default:
+					onlyRaw = false
+				}
+			}
+			leaves(n)
+			rawN = onlyRaw && someRaw
 		}
 		switch {
 		case rawN:
@@ -210,7 +236,9 @@ func ruleIndentRet(c *Ctx) []Obligation {
 				ex, isE := x.(*ssa.Extract)
 				return isE && ex.Tuple == ssa.Value(m.under) && ex.Index == 0
 			})
+			derivBarrier = m.under
 			usesPrefix := derivesThroughCalls(n, func(x ssa.Value) bool { _, f, _ := loadedField(x); return f == m.fPrefix })
+			derivBarrier = nil
 			if usesUnder && usesPrefix {
 				obs = append(obs, ok(R, con, c.InstrPos(r), "the count is computed from the underlying writer's count and the prefix length (the arithmetic itself is not decided here)"))
 			} else if k, isK := constInt(n); isK && k == 0 {
@@ -225,6 +253,10 @@ func ruleIndentRet(c *Ctx) []Obligation {
 	}
 	return obs
 }
+
+// derivBarrier: a call whose arguments derivesThroughCalls does not descend into (the underlying writer's Write:
+// its count says nothing about the prefix although the rendered text, its argument, contains it).
+var derivBarrier ssa.Value
 
 // derivesThroughCalls: like derivesFrom but also descends into the arguments of calls.
 func derivesThroughCalls(v ssa.Value, pred func(ssa.Value) bool) bool {
@@ -245,6 +277,9 @@ func derivesThroughCalls(v ssa.Value, pred func(ssa.Value) bool) bool {
 			}
 			switch z := y.(type) {
 			case *ssa.Call:
+				if ssa.Value(z) == derivBarrier {
+					break // what was handed to this call does not flow back through its result
+				}
 				for _, a := range z.Call.Args {
 					if walk(a, d+1) {
 						found = true
